@@ -1,6 +1,7 @@
 package codec
 
 import (
+	"bytes"
 	"io"
 	"sync"
 )
@@ -28,18 +29,44 @@ func (f *Frame) String() string {
 
 func (f *Frame) Read(r io.Reader) ([]byte, error) {
 	// Zero-length payload (e.g. empty string literal) is valid, nothing to read
-	bin := make([]byte, f.size)
 	if f.size == 0 {
-		return bin, nil
+		return []byte{}, nil
 	}
-	if _, err := io.ReadFull(r, bin); err != nil {
+	// Grow the buffer as data arrives, the size field of a malformed frame must not decide the allocation
+	var bin bytes.Buffer
+	if _, err := io.CopyN(&bin, r, int64(f.size)); err != nil {
 		return nil, err // probably EOF, but raise an error
 	}
-	return bin, nil
+	return bin.Bytes(), nil
+}
+
+// extendedSize in the 16-bit size field of a value frame means
+// that the actual size follows as a 32-bit integer (values of 65535 bytes or more)
+const extendedSize = 0xFFFF
+
+func isValueFrame(t FrameType) bool {
+	switch t {
+	case FLOAT_VALUE, IP_VALUE, IDENT_VALUE, BOOL_VALUE, INTEGER_VALUE, RTIME_VALUE, STRING_VALUE, OPERATOR:
+		return true
+	}
+	return false
 }
 
 func (f *Frame) Encode() []byte {
 	size := len(f.buffer)
+
+	if isValueFrame(f.frameType) && size >= extendedSize {
+		meta := []byte{
+			byte(f.frameType),
+			0xFF,
+			0xFF,
+			byte(size >> 24),
+			byte(size >> 16),
+			byte(size >> 8),
+			byte(size),
+		}
+		return append(meta, f.buffer...)
+	}
 
 	meta := []byte{
 		byte(f.frameType),
